@@ -39,6 +39,7 @@ func c19Letters() []c19Letter {
 		{"Query(ok)", pgproto.Query(progRows), "TDCZ", []string{"parse", "stmt"}},
 		{"Query(err)", pgproto.Query("1:!boom"), "TEZ", []string{"parse", "stmt"}},
 		{"Parse+Bind+Execute+Sync", pgproto.Cat(pgproto.Parse("", progRows), pgproto.Bind("", "", nil, nil, nil), pgproto.Execute("", 0), pgproto.Sync()), "12DCZ", []string{"parse", "stmt"}},
+		{"Bind(unknown statement), no Sync", pgproto.Bind("", "nope", nil, nil, nil), "E", nil},
 		{"Terminate", pgproto.Terminate(), "", nil},
 		{"EOF", nil, "", nil},
 	}
@@ -196,6 +197,7 @@ func c19Run(cfg c19Config, hist []c19Letter, oneSegment bool) explore.Result {
 		}
 		var wantReply string
 		var wantCBs []string
+		skipping := false
 		for _, l := range hist {
 			if !alive || terminated || l.Name == "EOF" {
 				break
@@ -207,8 +209,9 @@ func c19Run(cfg c19Config, hist []c19Letter, oneSegment bool) explore.Result {
 				}
 				break
 			}
-			wantReply += l.Reply
-			wantCBs = append(wantCBs, l.CBs...)
+			r, cb := c19Expect(l, &skipping)
+			wantReply += r
+			wantCBs = append(wantCBs, cb...)
 		}
 		n := len(st.cbs)
 		one.C.Push(seg)
@@ -230,12 +233,17 @@ func c19Run(cfg c19Config, hist []c19Letter, oneSegment bool) explore.Result {
 			res.Fail("not-closed", fmt.Sprintf("connection is %s after Terminate/EOF/middleware failure", stt))
 		}
 	} else {
+		skipping := false
 		for i, l := range hist {
 			n := len(st.cbs)
 			got, stt := deliver(l)
-			wantReply, wantCBs := l.Reply, l.CBs
+			wantReply, wantCBs := "", []string(nil)
 			if !alive || terminated {
 				wantReply, wantCBs = "", nil
+			} else if l.Name != "Terminate" && l.Name != "EOF" {
+				wantReply, wantCBs = c19Expect(l, &skipping)
+			}
+			if !alive || terminated {
 			} else if l.Name == "Terminate" {
 				terminated = true
 				if cfg.Hook != "absent" {
@@ -304,6 +312,30 @@ func c19Run(cfg c19Config, hist []c19Letter, oneSegment bool) explore.Result {
 	return res
 }
 
+// c19Expect: reply and callbacks of a letter, taking the discard-until-Sync state after a failed
+// extended message into account (a Terminate is always honoured, see the caller).
+func c19Expect(l c19Letter, skipping *bool) (string, []string) {
+	switch {
+	case strings.HasPrefix(l.Name, "Bind(unknown"):
+		if *skipping {
+			return "", nil
+		}
+		*skipping = true
+		return "E", nil
+	case l.Name == "Parse+Bind+Execute+Sync":
+		if *skipping {
+			*skipping = false
+			return "Z", nil // only the Sync is answered
+		}
+		return l.Reply, l.CBs
+	default: // simple queries
+		if *skipping {
+			return "", nil
+		}
+		return l.Reply, l.CBs
+	}
+}
+
 func c19Names(h []c19Letter) []string {
 	out := make([]string, len(h))
 	for i, l := range h {
@@ -317,7 +349,7 @@ func init() {
 		ID:        "C19",
 		Level:     "model_checking",
 		Technique: "exhaustive enumeration of (middleware count, failing position, auth, terminate hook) configurations x command histories x delivery mode on a real server, judged by a lifecycle reference machine with context probes inside every callback",
-		Rule:      "m in 0..3 middlewares, failing position none|1..m, auth none|cleartext, terminate hook absent|ok|error (60 configurations) x all histories of length <= d over {Query ok, Query err, Parse+Bind+Execute+Sync, Terminate, EOF} x {message by message, one segment}",
+		Rule:      "m in 0..3 middlewares, failing position none|1..m, auth none|cleartext, terminate hook absent|ok|error (60 configurations) x all histories of length <= d over {Query ok, Query err, Parse+Bind+Execute+Sync, a failing Bind without Sync, Terminate, EOF} x {message by message, one segment}",
 		Assumptions: []string{"context cancellation is observed at the next quiescence on the retained context"},
 		Enumerate:   c19Enumerate,
 		Bounds:      func(tier string) map[string]any { return map[string]any{"history_depth": c19Depth(tier), "configurations": 60} },
